@@ -7,6 +7,7 @@ representations (`Request`, `Parts`) are both projections onto `(method, headers
 all the model's function takes.
 -/
 import HttpServeModel.Model.Negotiate
+import HttpServeModel.Lemmas.Builder
 
 namespace HS
 
@@ -81,6 +82,20 @@ theorem C17_total (isHead : Bool) (ae : Option Bytes) (chunk level : Nat) (hc : 
 
 /-- Non-vacuity: a concrete request for which the gzip writer is chosen. -/
 example : streamingBuild false (some kGzip) 4096 6 =
+    .ok { vary := true, contentEncodingGzip := true, writer := .gzip } := by decide
+
+/-- Whatever builder calls precede `build()` and in whatever order, only the last
+`with_gzip_level` and the last `with_chunk_size` count (defaults 6 and 4096): the response is the
+one all theorems above describe for those two values. In particular a level set to 0 earlier
+and raised later, or the reverse, leaves header and writer in agreement. -/
+theorem C17_builder_calls (isHead : Bool) (ae : Option Bytes) (calls : List BCall) :
+    streamingBuildCalls isHead ae calls =
+      streamingBuild isHead ae ((lastChunk calls).getD 4096) ((lastLevel calls).getD 6) := by
+  obtain ⟨h1, h2⟩ := foldl_call_fields calls {}
+  simp only [streamingBuildCalls, h1, h2]
+
+/-- Non-vacuity: level 0, then 6, for a client that prefers gzip. -/
+example : streamingBuildCalls false (some [103, 122, 105, 112]) [.gzipLevel 0, .gzipLevel 6] =
     .ok { vary := true, contentEncodingGzip := true, writer := .gzip } := by decide
 
 end HS
